@@ -180,6 +180,9 @@ func verifyLegacy(pub *ecdsa.PublicKey, hash, sig []byte) bool {
 	c := pub.Curve
 	N := c.Params().N
 
+	if pub.X == nil || pub.Y == nil || !c.IsOnCurve(pub.X, pub.Y) {
+		return false
+	}
 	if r.Sign() <= 0 || s.Sign() <= 0 {
 		return false
 	}
